@@ -76,7 +76,7 @@ def cases(tier, seed):
                     "n": nidx, "r": rad, "center": [float(rng.uniform(0, 1.5)), float(rng.uniform(0, 1.5)), float(rng.uniform(-2, 10) if lens else rng.uniform(5, 20))],
                     "theory": {"t": "MieLens", "lens_angle": float(rng.uniform(0.3, 1.1)), "kw": {}} if lens else {"t": "Mie", "kw": {}},
                     "shape": [int(rng.integers(1, 7)), int(rng.integers(2, 7))], "spacing": [float(rng.uniform(0.1, 0.4)), float(rng.uniform(0.1, 0.4))],
-                    "form": {"wl": ["dict", "array", "array_perm", "scalar"][i % 4] if i % 5 else "scalar", "pol": ["dict", "array_perm"][(i // 3) % 2], "n": ["dict", "array_perm", "scalar"][(i // 2) % 3],
+                    "form": {"wl": (["dict", "array", "array_perm", "scalar"][i % 4] if i % 5 else "scalar") if i % 11 != 7 else "list", "pol": ["dict", "array_perm"][(i // 3) % 2], "n": ["dict", "array_perm", "scalar"][(i // 2) % 3],
                              "r": ["scalar", "dict"][(i // 5) % 2], "scaling": ["dict", "scalar"][(i // 7) % 2], "detector": ["grid", "image"][(i // 4) % 2]},
                     "seed": [seed, "multi", i],
                     # what scatters: one sphere; a close pair one of whose spheres has the per-channel values (default theory: F124, explicit
@@ -200,6 +200,9 @@ def _run_multi(case):
         # channels that differ in polarization / particle properties only: one wavelength, given as a plain number
         wl = {l: wl[labs[0]] for l in labs}
         wl_arg = wl[labs[0]]
+    elif form["wl"] == "list":
+        # a plain list, one wavelength per channel of the (labelled) detector, in the detector's channel order
+        wl_arg = [wl[l] for l in labs]
     else:
         wl_arg = wl if form["wl"] == "dict" else as_array(wl, labs if form["wl"] == "array" else perm)
     if form["pol"] == "dict":
@@ -209,6 +212,10 @@ def _run_multi(case):
         # labelled array; every other case with rows of arbitrary (non-unit) length, which mean the same directions
         rows = [to_vector(pol[l]) * ([1.0, 2.5, 0.04][i % 3] if sum(case["seed"][-1:]) % 2 else 1.0) for i, l in enumerate(perm)]
         pol_arg = xr.concat(rows, xr.DataArray(perm, dims="illumination", name="illumination"))
+    if form["wl"] == "list":
+        # (with a plain list the channel order is the detector's; one polarization for all channels keeps that the only order in play)
+        pol = {l: pol[labs[0]] for l in labs}
+        pol_arg = tuple(pol[labs[0]])
     n_arg = nidx if form["n"] == "dict" else (as_array(nidx, perm) if form["n"] == "array_perm" else nidx[labs[0]])
     r_arg = rad if form["r"] == "dict" else rad[labs[0]]
     sc_arg = scaling if form["scaling"] == "dict" else scaling[labs[0]]
